@@ -23,7 +23,7 @@ Abstract values (JSON-able through lib.jsonable, and directly convertible to Coq
 Hand types: HIP [hit, alg, key, [[name]...]]; IPSECKEY [prec, gwtype, alg, gw, key] with gw None |
     4 octets | 16 octets | name; AMTRELAY [prec, D, type, relay]; APL [[[family, neg, addr, prefix]...]];
     GPOS [lat, lon, alt] (ASCII); LOC [[d,m,s,ms,sign],[d,m,s,ms,sign], alt_cm, size_cm, hp_cm, vp_cm];
-    OPT [[otype, payload]...]; SVCB/HTTPS [priority, target, [[key, payload-spec]...]].
+    OPT [[otype, payload]...]; SVCB/HTTPS [priority, target, [[key, value octets]...]].
 """
 import importlib
 import os
@@ -510,17 +510,57 @@ def v_loc(rd):
     return [list(rd.latitude), list(rd.longitude), int(rd.altitude), int(rd.size), int(rd.horizontal_precision), int(rd.vertical_precision)]
 
 
+def _ecs_payload(rng, fam=None, src=None):
+    fam = fam or rng.choice([1, 2])
+    full = 4 if fam == 1 else 16
+    if src is None:
+        src = rng.choice([0, 1, 7, 8, 9, 24, 8 * full - 1, 8 * full, rng.randint(0, 8 * full)])
+    scope = rng.choice([0, src, rng.randint(0, 8 * full)])
+    n = (src + 7) // 8
+    addr = bytearray(gen_bytes(rng, n))
+    if src % 8 and n:
+        addr[-1] &= (0xFF << (8 - src % 8)) & 0xFF
+    return bytes([0, fam, src, scope]) + bytes(addr)
+
+
+def _utf8_text(rng, lo=0):
+    n = rng.choice([lo, 1, 5, 40])
+    s = "".join(rng.choice(["a", "Z", " ", "\u00e9", "\u4e2d", "\U0001f600", "0", "-"]) for _ in range(n))
+    return s.encode("utf8")
+
+
+def g_opt_payload(rng, ot, names="abs"):
+    if ot == 10:
+        return gen_bytes(rng, 8) + (gen_bytes(rng, rng.choice([8, 9, 31, 32])) if rng.random() < 0.6 else b"")
+    if ot == 8:
+        return _ecs_payload(rng)
+    if ot == 15:
+        return bytes([rng.randrange(256), rng.randrange(256)]) + _utf8_text(rng)
+    if ot == 18:
+        n = nl.gen_labels(rng, absolute=True)
+        return b"".join(bytes([len(l)]) + l for l in n)
+    if ot in (22, 23, 24, 25):
+        return _utf8_text(rng)
+    return gen_bytes(rng, gen_len(rng, 0, 65535, None))
+
+
 def g_opt(rng, names, origin, profile):
     n = 0 if profile in ("min", "zero") else rng.choice([0, 1, 1, 2, 4])
     out = []
     for _ in range(n):
-        ot = rng.choice([3, 10, 10, 65001, 4, 11, 12, 65535, 0, rng.randrange(65536)])
-        if ot == 10:
-            data = gen_bytes(rng, 8) + (gen_bytes(rng, rng.randint(8, 32)) if rng.random() < 0.6 else b"")
-        else:
-            data = gen_bytes(rng, gen_len(rng, 0, 65535, profile))
-        out.append([ot, data])
+        ot = rng.choice([3, 10, 8, 8, 15, 15, 18, 22, 23, 24, 25, 65001, 4, 11, 12, 65535, 0, 9, 13, rng.randrange(26, 65536)])
+        out.append([ot, g_opt_payload(rng, ot)])
     return out
+
+
+def _name_from_wire_plain(b):
+    labels, i = [], 0
+    while True:
+        n = b[i]
+        labels.append(bytes(b[i + 1 : i + 1 + n]))
+        i += 1 + n
+        if n == 0:
+            return labels
 
 
 def m_opt(cls, rdclass, rdtype, v):
@@ -529,8 +569,26 @@ def m_opt(cls, rdclass, rdtype, v):
         data = bytes(data)
         if ot == 3:
             opts.append(dns.edns.NSIDOption(data))
-        elif ot == 10 and (len(data) == 8 or 16 <= len(data) <= 40):
+        elif ot == 10:
             opts.append(dns.edns.CookieOption(data[:8], data[8:]))
+        elif ot == 8:
+            fam, src, scope = data[1], data[2], data[3]
+            full = 4 if fam == 1 else 16
+            addr = data[4:] + bytes(full - len(data[4:]))
+            text = socket.inet_ntop(socket.AF_INET if fam == 1 else socket.AF_INET6, addr)
+            opts.append(dns.edns.ECSOption(text, src, scope))
+        elif ot == 15:
+            opts.append(dns.edns.EDEOption(int.from_bytes(data[:2], "big"), data[2:].decode("utf8") if len(data) > 2 else None))
+        elif ot == 18:
+            opts.append(dns.edns.ReportChannelOption(name_obj(_name_from_wire_plain(data))))
+        elif ot == 22:
+            opts.append(dns.edns.EDEExtraTextLanguageOption(data.decode("utf8")))
+        elif ot == 23:
+            opts.append(dns.edns.FilteringContactOption(data.decode("utf8")))
+        elif ot == 24:
+            opts.append(dns.edns.FilteringOrganizationOption(data.decode("utf8")))
+        elif ot == 25:
+            opts.append(dns.edns.FilteringDBOption(data.decode("utf8")))
         else:
             opts.append(dns.edns.GenericOption(ot, data))
     return cls(rdclass, rdtype, opts)
@@ -569,31 +627,74 @@ def g_svcb(rng, names, origin, profile):
         if ks and rng.random() < 0.4:
             params.append([0, sorted(rng.sample(ks, rng.randint(1, len(ks))))])
         params.sort(key=lambda p: p[0])
-    return [prio, target, params]
+    return [prio, target, [[k, _svcb_raw(k, p)] for k, p in params]]
+
+
+def _svcb_raw(k, p):
+    """wire form of one parameter value from its structured description"""
+    if p is None:
+        return b""
+    if k == 0:
+        return b"".join(int(x).to_bytes(2, "big") for x in p)
+    if k in (1, 10):
+        return b"".join(bytes([len(r[0])]) + bytes(r[0]) for r in p)
+    if k == 3:
+        return int(p).to_bytes(2, "big")
+    if k in (4, 6):
+        return b"".join(bytes(r[0]) for r in p)
+    return bytes(p)
+
+
+def _svcb_strlist(raw):
+    out, i = [], 0
+    while i < len(raw):
+        n = raw[i]
+        if n == 0 or i + 1 + n > len(raw):
+            raise ValueError("bad string list")
+        out.append(raw[i + 1 : i + 1 + n])
+        i += 1 + n
+    return out
 
 
 def m_svcb(cls, rdclass, rdtype, v):
     params = {}
-    for k, p in v[2]:
+    for k, raw in v[2]:
+        raw = bytes(raw)
         if k == 0:
-            val = svcb.MandatoryParam(list(p))
+            if len(raw) % 2:
+                raise ValueError("odd mandatory list")
+            val = svcb.MandatoryParam([int.from_bytes(raw[i : i + 2], "big") for i in range(0, len(raw), 2)])
+            if [int(x) for x in val.keys] != [int.from_bytes(raw[i : i + 2], "big") for i in range(0, len(raw), 2)]:
+                raise ValueError("mandatory keys not ascending")
         elif k == 1:
-            val = svcb.ALPNParam([bytes(r[0]) for r in p])
+            val = svcb.ALPNParam(_svcb_strlist(raw)) if raw else None
+        elif k == 10:
+            val = svcb.DoCPathParam(_svcb_strlist(raw)) if raw else None
         elif k in (2, 8):
+            if raw:
+                raise ValueError("value for a valueless key")
             val = None
         elif k == 3:
-            val = svcb.PortParam(p)
+            if len(raw) != 2:
+                raise ValueError("port")
+            val = svcb.PortParam(int.from_bytes(raw, "big"))
         elif k == 4:
-            val = svcb.IPv4HintParam([socket.inet_ntop(socket.AF_INET, bytes(r[0])) for r in p])
+            if len(raw) % 4:
+                raise ValueError("ipv4hint")
+            val = svcb.IPv4HintParam([socket.inet_ntop(socket.AF_INET, raw[i : i + 4]) for i in range(0, len(raw), 4)])
         elif k == 6:
-            val = svcb.IPv6HintParam([socket.inet_ntop(socket.AF_INET6, bytes(r[0])) for r in p])
+            if len(raw) % 16:
+                raise ValueError("ipv6hint")
+            val = svcb.IPv6HintParam([socket.inet_ntop(socket.AF_INET6, raw[i : i + 16]) for i in range(0, len(raw), 16)])
         elif k == 5:
-            val = svcb.ECHParam(bytes(p))
-        elif k == 10:
-            val = svcb.DoCPathParam([bytes(r[0]) for r in p])
+            val = svcb.ECHParam(raw)
         else:
-            val = svcb.GenericParam(bytes(p))
+            val = svcb.GenericParam(raw) if raw else None
+        if svcb.ParamKey.make(k) in params:
+            raise ValueError("duplicate key")
         params[svcb.ParamKey.make(k)] = val
+    if [k for k, _ in v[2]] != sorted(k for k, _ in v[2]):
+        raise ValueError("keys not sorted")
     return cls(rdclass, rdtype, v[0], name_obj(v[1]), params)
 
 
@@ -603,21 +704,22 @@ def v_svcb(rd):
         p = rd.params[k]
         k = int(k)
         if p is None:
-            out.append([k, None])
+            raw = b""
         elif k == 0:
-            out.append([k, [int(x) for x in p.keys]])
+            raw = b"".join(int(x).to_bytes(2, "big") for x in p.keys)
         elif k in (1, 10):
-            out.append([k, [[bytes(x)] for x in p.ids]])
+            raw = b"".join(bytes([len(x)]) + bytes(x) for x in p.ids)
         elif k == 3:
-            out.append([k, int(p.port)])
+            raw = int(p.port).to_bytes(2, "big")
         elif k == 4:
-            out.append([k, [[socket.inet_pton(socket.AF_INET, a)] for a in p.addresses]])
+            raw = b"".join(socket.inet_pton(socket.AF_INET, a) for a in p.addresses)
         elif k == 6:
-            out.append([k, [[socket.inet_pton(socket.AF_INET6, a)] for a in p.addresses]])
+            raw = b"".join(socket.inet_pton(socket.AF_INET6, a) for a in p.addresses)
         elif k == 5:
-            out.append([k, bytes(p.ech)])
+            raw = bytes(p.ech)
         else:
-            out.append([k, bytes(p.value)])
+            raw = bytes(p.value)
+        out.append([k, raw])
     return [int(rd.priority), labels_of(rd.target), out]
 
 
@@ -823,13 +925,26 @@ def _c_loc():
 
 def _c_opt():
     cookie8, cookie40 = b"\x01" * 8, b"\x02" * 40
+    ecs = []
+    for fam, full in ((1, 4), (2, 16)):
+        for src in (0, 1, 7, 8, 9, 8 * full - 1, 8 * full):
+            n = (src + 7) // 8
+            addr = bytearray(b"\xff" * n)
+            if src % 8 and n:
+                addr[-1] &= (0xFF << (8 - src % 8)) & 0xFF
+            for scope in (0, 8 * full):
+                ecs.append([[8, bytes([0, fam, src, scope]) + bytes(addr)]])
     return [[], [[3, b""]], [[3, b"nsid\xff"]], [[10, cookie8]], [[10, cookie8 + cookie40[:8]]], [[10, cookie8 + cookie40[:32]]],
-            [[65001, b""], [65001, b"\x00"], [0, b"\xff" * 300]], [[65535, b"x"], [4, b"abc"], [3, b"z"]], [[12, bytes(468)]], [[11, b"\x00\x10"]]]
+            [[65001, b""], [65001, b"\x00"], [0, b"\xff" * 300]], [[65535, b"x"], [4, b"abc"], [3, b"z"]], [[12, bytes(468)]], [[11, b"\x00\x10"]],
+            [[15, b"\x00\x00"]], [[15, b"\xff\xffsigned by \xc3\xa9"]], [[15, b"\x00\x12x"]],
+            [[18, b"\x05agent\x07example\x00"]], [[18, b"\x00"]],
+            [[22, b"en-US"]], [[22, b""]], [[23, b"mailto:x@example"]], [[24, b"Org \xe4\xb8\xad"]], [[25, b"db"]],
+            [[8, b"\x00\x01\x18\x00\xc0\x00\x02"], [15, b"\x00\x04t"], [10, cookie8]]] + ecs
 
 
 def _c_svcb():
     t1, t2 = [b"svc", b"Example", b""], [b""]
-    return [
+    specs = [
         [0, t1, []], [0, t2, []], [1, t2, []], [65535, [b"rel"], []],
         [1, t1, [[1, [[b"h2"], [b"h3"]]]]], [1, t2, [[1, [[b"\xff" * 255]]], [2, None]]],
         [2, t1, [[3, 0]]], [2, t1, [[3, 65535]]], [1, t1, [[4, [[b"\x00\x00\x00\x00"]]]]], [1, t1, [[4, [[b"\xc0\x00\x02\x01"], [b"\xff\xff\xff\xff"]]]]],
@@ -838,7 +953,9 @@ def _c_svcb():
         [1, t1, [[0, [1, 3]], [1, [[b"h2"]]], [3, 443]]], [1, t1, [[0, [65280]], [65280, b"x"]]],
         [1, t1, [[9, b"\x00"]]], [1, t1, [[11, b"v"]]], [1, t1, [[65534, b"\xff" * 40]]], [1, t1, [[65280, b"\x01"], [65281, b"\x02"], [65534, b"\x03"]]],
         [16, t2, [[1, [[b"h2"]]], [2, None], [3, 8443], [4, [[b"\x01\x02\x03\x04"]]], [5, b"e"], [6, [[bytes(15) + b"\x01"]]], [8, None]]],
+        [1, t1, [[1, None]]], [1, t1, [[4, []]]], [1, t1, [[5, b""]]], [1, t1, [[0, []]]], [1, t1, [[65535, b""]]], [1, t1, [[7, None]]],
     ]
+    return [[p, t, [[k, _svcb_raw(k, x)] for k, x in ps]] for p, t, ps in specs]
 
 
 HAND_CORNERS = {"hip": _c_hip, "ipseckey": _c_ipseckey, "amtrelay": _c_amtrelay, "apl": _c_apl, "gpos": _c_gpos, "loc": _c_loc, "opt": _c_opt, "svcb": _c_svcb}
